@@ -334,6 +334,10 @@ func c16Special(t *engine.T) {
 		{"path on the result of a function reached through a parameter", `<% let id = fn(v) { return v } %><% let ap = fn(g, v) { return g(v).Name } %><%= ap(id, pers) %>|<%= ap(id, pers.Kid) %>`, "N|K"},
 		{"calling a call result whose text contains a dot", `<% let mk = fn(a) { return fn(b) { return a + b } } %><% let add = fn(a) { return fn(b) { return b + 1 } } %><%= add(1.5)(2) %>|<%= add("a.b")(2) %>|<%= fn(x) { return x + 1.5 }(2.0) %>|<%= add(pers.Name)(4) %>`, "3|3|3.5|5"},
 		{"calling a function stored under a key / index whose text contains a dot", `<% let m = {"a.b": fn(x) { return x + 1 }, "c": fn(x) { return x + 2 }} %><% let fs = [fn(x) { return x + 10 }, fn(x) { return x + 20 }] %><% let cfg = {"Idx": 1} %><%= m["a.b"](2) %>|<%= m["c"](2) %>|<%= fs[cfg["Idx"]](1) %>|<%= fs[0](10) %>|<%= [fn(x) { return x + 0.5 }][0](1.0) %>`, "3|4|21|20|1.5"},
+		{"a fresh scope for every call: another function's let is not visible", `<% let t = "outer" %><% let f = fn() { let t = "two"
+ return t } %><% let g = fn() { return t } %><% let h = fn(u) { let w = u
+ return t + w } %><%= g() %>|<%= f() %>|<%= g() %>|<%= h("1") %>|<%= g() %>|<%= f() + g() %>|<%= t %>`, "outer|two|outer|outer1|outer|twoouter|outer"},
+		{"a list is returned as that list, whatever its length", `<% let id = fn(x) { return x } %><% let mk1 = fn(v) { return [v] } %><%= len(id(["seven"])) %>|<%= id(["seven"])[0] %>|<%= for (e) in id([[1, 2]]) { %><%= len(e) %><% } %>|<%= len(id([])) %>|<%= len(id([1, 2])) %>|<%= len(mk1(5)) %>|<%= mk1(5)[0] + 1 %>|<%= len(mk1([1, 2, 3])) %>|<%= len(id(id([[9]]))[0]) %>|<%= rec(id(["z"]))[0] %>`, "1|seven|2|0|2|1|6|1|1|z"},
 		{"apply with two different functions", `<% let f1 = fn(a) { return a + "1" } %><% let f2 = fn(a) { return a + "2" } %><% let apply = fn(g, v) { return g(v) } %><%= apply(f1, "A") %>|<%= apply(f2, "A") %>|<%= apply(f1, apply(f2, "B")) %>`, "A1|A2|B21"},
 		{"rebound function variable", `<% let h = fn(a) { return "p" + a } %><%= h("1") %><% h = fn(a) { return "q" + a } %>|<%= h("1") %><% let k = h %>|<%= k("2") %>`, "p1|q1|q2"},
 		{"parameter named like a defined function", `<% let f = fn(a) { return "outer" + a } %><% let call = fn(f, v) { return f(v) } %><% let other = fn(a) { return "param" + a } %><%= call(other, "1") %>|<%= f("2") %>|<%= call(f, "3") %>`, "param1|outer2|outer3"},
